@@ -124,8 +124,9 @@ package loadbalancer
 //@   requires backend != nil && resp != nil && unlocked(backend.Mutex) && lbOK(lb)
 //@   requires unlocked(lb.metricsCollector.metrics.mutex) && bmCellsOK(lb.metricsCollector)
 //@   ensures seq: failed_probe_ejects: resp.StatusCode != 200 ==> !backend.IsHealthy && backend.UnhealthyUntil == now() + lb.healthChecks.passiveTimeout
-//@   ensures seq: ok_probe_never_ejects: resp.StatusCode == 200 ==> backend.IsHealthy
-//@   ensures seq: mirror: has_bm(lb.metricsCollector, backend.Name) && mirrorOf(lb, backend) == backend.IsHealthy
+//@   ensures seq: ok_probe_never_ejects: resp.StatusCode == 200 ==> (old(backend.IsHealthy) ==> backend.IsHealthy) && backend.UnhealthyUntil == old(backend.UnhealthyUntil)
+//@   ensures seq: ok_probe_readmits_after_window: resp.StatusCode == 200 && old(now()) > old(backend.UnhealthyUntil) ==> backend.IsHealthy
+//@   ensures seq: mirror: backend.IsHealthy != old(backend.IsHealthy) || resp.StatusCode != 200 ==> has_bm(lb.metricsCollector, backend.Name) && mirrorOf(lb, backend) == backend.IsHealthy
 //@   ensures cells: bmCellsOK(lb.metricsCollector)
 //@   modifies backend.IsHealthy, backend.UnhealthyUntil, mapof(lb.metricsCollector.metrics.BackendMetrics), metrics.BackendMetrics.IsHealthy, metrics.BackendMetrics.LastHealthCheck
 
